@@ -1,12 +1,72 @@
-(* C11 -- Annotations survive network transfer.  Statements only.
-   Proved so far: every annotation layer is rebuilt by its decoder from what its
-   encoder sent (one theorem per payload kind, for any cause), and hops through
-   unknowing processes are invisible to later processes.  The composition over
-   whole trees is decided on every run by the correspondence stream and the
-   Go-side relation (proof in progress). *)
+(* C11 -- Annotations survive network transfer.  Statements only; proofs in
+   Proofs/RoundTrip.v, ExactHop.v, HopIdem.v, EraseFacts.v.
+   Proved: every accessor is a function of the erasure; errors of kinds with exact
+   decoders keep every annotation over one (hence any number of) knowing hop(s),
+   whatever the strings; every annotation layer is rebuilt over ANY cause; for
+   every error nothing changes from the second hop on.  Not proved: the printed
+   stack codec (reportable frames of stack layers across the first hop) -- decided
+   on every run by the correspondence stream (frames, one-line source) and the
+   implementation-side relation. *)
 From Errv Require Import Base.Str Model.Err Model.Sem Model.Details Model.Marks Model.Codec Model.Access
-     Proofs.CodecFacts Proofs.RoundTrip.
+     Proofs.CodecFacts Proofs.RoundTrip Proofs.EraseDef Proofs.EraseFacts Proofs.HopIdem Proofs.ExactHop.
 
+Theorem C11_exact_hop : forall e n,
+  exact_tree e = true ->
+  let e' := fst (hop all_knowing e n) in
+  get_all_hints e' = get_all_hints e /\ get_all_details e' = get_all_details e /\
+  get_all_issue_links e' = get_all_issue_links e /\ get_telemetry_keys e' = get_telemetry_keys e /\
+  get_domain e' = get_domain e /\ get_context_tags e' = get_context_tags e /\
+  has_assertion_failure e' = has_assertion_failure e /\ is_assertion_failure e' = is_assertion_failure e /\
+  has_issue_link e' = has_issue_link e /\ has_unimplemented e' = has_unimplemented e /\
+  (forall dflt, get_http_code e' dflt = get_http_code e dflt) /\ get_grpc_code e' = get_grpc_code e /\
+  is_timeout e' = is_timeout e.
+Proof. exact exact_hop_accessors. Qed.
+Print Assumptions C11_exact_hop.
+
+(* per-layer safe details *)
+Theorem C11_exact_hop_details : forall e n,
+  exact_tree e = true -> get_safe_details (fst (hop all_knowing e n)) = get_safe_details e.
+Proof. exact exact_hop_details. Qed.
+Print Assumptions C11_exact_hop_details.
+
+Theorem C11_exact_k_hops : forall e k n,
+  exact_tree e = true -> erase (fst (transfer (List.repeat all_knowing k) e n)) = erase e.
+Proof. exact exact_transfer. Qed.
+Print Assumptions C11_exact_k_hops.
+
+(* accessors only see the erasure *)
+Theorem C11_accessors_erasure : forall e,
+  get_all_hints (erase e) = get_all_hints e /\ get_all_details (erase e) = get_all_details e /\
+  get_all_issue_links (erase e) = get_all_issue_links e /\ get_telemetry_keys (erase e) = get_telemetry_keys e /\
+  get_domain (erase e) = get_domain e /\ get_context_tags (erase e) = get_context_tags e /\
+  get_safe_details (erase e) = get_safe_details e.
+Proof.
+  intro e. split; [apply get_all_hints_erase|]. split; [apply get_all_details_erase|].
+  split; [apply get_all_issue_links_erase|]. split; [apply get_telemetry_keys_erase|].
+  split; [apply get_domain_erase|]. split; [apply get_context_tags_erase | apply get_safe_details_erase].
+Qed.
+Print Assumptions C11_accessors_erasure.
+
+(* every error, any process with closed knowledge: nothing changes from the second hop on *)
+Theorem C11_stable : forall p, proc_closed p -> forall e n n' n'',
+  let e2 := fst (hop p (fst (hop p e n)) n') in
+  let e3 := fst (hop p e2 n'') in
+  get_all_hints e3 = get_all_hints e2 /\ get_all_details e3 = get_all_details e2 /\
+  get_telemetry_keys e3 = get_telemetry_keys e2 /\ get_domain e3 = get_domain e2 /\
+  get_context_tags e3 = get_context_tags e2 /\ get_safe_details e3 = get_safe_details e2.
+Proof.
+  intros p Hp e n n' n'' e2 e3. pose proof (hop_stable p Hp e n n' n'') as E. fold e2 in E. fold e3 in E.
+  repeat split.
+  - now rewrite <- (get_all_hints_erase e3), E, get_all_hints_erase.
+  - now rewrite <- (get_all_details_erase e3), E, get_all_details_erase.
+  - now rewrite <- (get_telemetry_keys_erase e3), E, get_telemetry_keys_erase.
+  - now rewrite <- (get_domain_erase e3), E, get_domain_erase.
+  - now rewrite <- (get_context_tags_erase e3), E, get_context_tags_erase.
+  - now apply same_erase_safe_details.
+Qed.
+Print Assumptions C11_stable.
+
+(* each annotation layer is rebuilt over any cause (also over stack layers, foreign types ...) *)
 Theorem C11_layers : forall i c n, exists j,
   (forall h, fst (hop all_knowing (Wrap i (WHint h) c) n) = Wrap j (WHint h) (fst (hop all_knowing c n))) /\
   (forall d, fst (hop all_knowing (Wrap i (WDetail d) c) n) = Wrap j (WDetail d) (fst (hop all_knowing c n))) /\
@@ -32,6 +92,7 @@ Example C11_example :
   let e := Wrap 103%positive (WHint (lit "h")) (Wrap 102%positive (WDomain (lit "error domain: d"))
             (Wrap 101%positive (WTelemetry [lit "k1"; lit "k2"]) (Leaf 100%positive (LErrString (lit "x"))))) in
   let e1 := fst (transfer [all_knowing; all_knowing] e 1000%positive) in
+  exact_tree e = true /\
   get_all_hints e1 = get_all_hints e /\ get_domain e1 = get_domain e /\
   get_telemetry_keys e1 = get_telemetry_keys e /\ get_all_hints e = [lit "h"].
 Proof. vm_compute. repeat split. Qed.
